@@ -35,7 +35,9 @@ GUARDS = {
 KINDS = ['Function', 'Constructor', 'Fallback', 'Receive', 'Modifier']
 VIS = [None, 'public', 'external', 'internal', 'private']
 MODS = [None, 'onlyOwner', 'only', 'whenNotPaused', 'nonlyReentrant']
-SHAPES = ['guard_then_kill', 'kill_then_guard', 'kill_in_if', 'guard_in_if_kill_after']
+SHAPES = ['guard_then_kill', 'kill_then_guard', 'kill_in_if', 'guard_in_if_kill_after',
+          # a second, unrelated call in front of / behind the guard: a comparison that does not mention the sender, a call without arguments
+          'unrelated_comparison_then_guard_then_kill', 'guard_then_unrelated_comparison_then_kill', 'call_without_arguments_then_guard_then_kill']
 
 
 def selfdestruct_file(b, kind, vis, mod, kill, guard, shape, where='contract'):
@@ -47,6 +49,12 @@ def selfdestruct_file(b, kind, vis, mod, kill, guard, shape, where='contract'):
         stmts = [k] + ([g] if g else [])
     elif shape == 'kill_in_if':
         stmts = ([g] if g else []) + [b.if_(b.var('c'), b.block([k]))]
+    elif shape == 'unrelated_comparison_then_guard_then_kill':
+        stmts = [b.expr_stmt(b.call(b.var('require'), [b.bin('NotEqual', b.var('id'), b.num(0))]))] + ([g] if g else []) + [k]
+    elif shape == 'guard_then_unrelated_comparison_then_kill':
+        stmts = ([g] if g else []) + [b.expr_stmt(b.call(b.var('require'), [b.bin('Equal', b.var('id'), b.var('x')), b.string('m')]))] + [k]
+    elif shape == 'call_without_arguments_then_guard_then_kill':
+        stmts = [b.expr_stmt(b.call(b.var('beforeShutdown'), []))] + ([g] if g else []) + [k]
     else:
         stmts = ([b.if_(b.var('c'), b.block([g]))] if g else []) + [k]
     attrs = []
@@ -159,7 +167,8 @@ def body(chk):
     if chk.quick:
         chk.rng.shuffle(combos)
         keep = [c for c in combos if c[0] == 'Function' and c[1] in ('public', 'external') and c[2] in (None, 'onlyOwner')]
-        combos = keep[:250] + combos[:450]
+        two = [c for c in combos if c[5] in SHAPES[4:] and c[1] == 'public']
+        combos = keep[:250] + combos[:400] + two[:90]
     for k in range(0, len(combos), 80):
         items.append(('selfdestruct', combos[k:k + 80]))
     pragmas = [(i, v, p) for i in ('solidity', 'experimental', 'abicoder')
